@@ -563,12 +563,26 @@ def monitor_c16(sc, obs):
     v = []
     ents, _ = _ents(sc)
     recv_value = Counter()
+    prev = None
     for i, o in enumerate(obs):
         for r in o['data']:
             if r[0] == 6 and ents.get(r[1], {}).get('kind') == 'sink':
                 recv_value[r[1]] += r[6]
         if o['st'] not in (0, 2, 3):
             return v
+        # a maintainer's value drops by the cost of each order it starts: the cost its target quotes when the work starts, i.e. in
+        # the target's state just before this event (the scripted processors quote a surcharge while they are shut down)
+        if prev is not None and o['op'][0] == 'step' and 'maints' in o and 'maints' in prev:
+            due = Counter()
+            for r in o['data']:
+                if r[0] == 3 and r[4] in prev['devices']:
+                    t = r[4]
+                    due[r[1]] += ents[t].get('wo_cost', 0) + (ents[t].get('wo_dur', 0) if prev['devices'][t]['shut'] else 0)
+            for m, e in o['maints'].items():
+                if m in prev['maints'] and e['value'] - prev['maints'][m]['value'] != -due[m]:
+                    _bad(v, 'C16/work-order-cost', 'op %d (t=%d): maintainer %d started orders costing %d/8 in all, its value changed by %d/8' % (
+                        i, o['now'], m, due[m], e['value'] - prev['maints'][m]['value']))
+        prev = o
         for d, e in o['devices'].items():
             hist = e['value_hist']
             tot = 0
